@@ -256,3 +256,5 @@ theorem max_returns_an_argument (args : List Val) (s : BState) (v : Val) (s' : B
 /-- `abs` of a decimal goes through the context: ≤ 28 digits -/
 theorem abs_dec_digits (x d : Dec) (h : Dec.abs' x = .ok d) : d.digits ≤ 28 := (dec_ops_fix_digits x x d).2.2.2.2.2 h
 
+
+end SqProps.C04
